@@ -41,7 +41,7 @@ Definition no_fixes : fixes := mkFixes false false false false false.    (* the 
 Definition all_fixes : fixes := mkFixes true true true true true.
 (* what /repo does today — the ONE line to edit after applying a patch; the D1
    tie runs the model with these switches (ocaml/eng_cache.ml) *)
-Definition impl_fixes : fixes := no_fixes.
+Definition impl_fixes : fixes := mkFixes true false true true true.   (* F-15, F-18, F-28, F-33 repaired in /repo; F-16 recorded *)
 
 Record cfg := mkCfg {
   c_shards : N;            (* power of two >= 1; shard = hash & (n-1), hash = key *)
